@@ -619,6 +619,23 @@ impl<D: Distance> Writer<D> {
                 &mut descendants,
                 options.available_memory.unwrap_or(usize::MAX),
             )?;
+            // If the items selected with respect to the available memory fit in a single descendant
+            // we would write it, insert the remaining items in it and end up with the same too
+            // large descendant forever. The memory is only a hint: select all the items instead.
+            let (leafs, to_insert) =
+                if !descendants.is_empty() && self.fit_in_descendant(options, to_insert.len()) {
+                    drop(leafs);
+                    descendants |= to_insert;
+                    ImmutableLeafs::new(
+                        wtxn,
+                        self.database,
+                        self.index,
+                        &mut descendants,
+                        usize::MAX,
+                    )?
+                } else {
+                    (leafs, to_insert)
+                };
             let frozen_reader = FrozzenReader {
                 leafs: &leafs,
                 trees: &ImmutableTrees::empty(),
